@@ -549,6 +549,7 @@ class OptionsParser:
 
         if '=' in option:
             option, value = option.split('=', 1)
+            option = option.lower()
 
             handler = self._handlers.get(option)
             if handler:
@@ -562,7 +563,7 @@ class OptionsParser:
 
                 values.append(value)
         else:
-            self.options[option] = True
+            self.options[option.lower()] = True
 
     def _parse_options(self, line: str) -> str:
         """Parse options in this entry"""
